@@ -144,6 +144,7 @@ class FastInterp:
         self.ret: Optional[ast.Dict] = None
         self.decodes: List[ast.Call] = []
         self.endians = set()
+        self.cond_adapters = []
 
     def cls_attr(self, name):
         v = self.repo.class_attr(self.ci, name)
@@ -349,6 +350,7 @@ class FastInterp:
                     v = self.expr(s.value)
                     old = self.env.get(s.targets[0].id)
                     if isinstance(v, Val) and isinstance(old, Val) and v.toks == old.toks:
+                        self.cond_adapters.append((st.test, s.targets[0].id, [a for a in v.adapters if a not in old.adapters], s))
                         self.env[s.targets[0].id] = Val(old.toks, old.gate, sorted(set(old.adapters + v.adapters)), covers=old.covers)
                     else:
                         raise AnalysisError(f"C13: conditional assignment {src(s)} changes stream origin")
@@ -468,6 +470,82 @@ def run(ctx):
         ctx.ob("C13.R2", f"fast reader text encoding equals CStr default: {norm(c)}",
                isinstance(tenc, ast.Constant) and enc is not None and
                enc.replace("-", "").lower() == str(tenc.value).replace("-", "").lower(), ctx.w(fi, c))
+    # conditional adapter dispatch (State): same selector and same choices as the template's ContextAdapter
+    by_tkey = {f["key"]: f for f in tfields}
+    for test, var, added, stmt in interp.cond_adapters:
+        keys_for_var = [f["key"] for f in fast if isinstance(f["node"], ast.Name) and f["node"].id == var]
+        tf = by_tkey.get(keys_for_var[0]) if keys_for_var else None
+        inst = f"conditional adapter on {keys_for_var[0] if keys_for_var else var} under `{norm(test)}`"
+        if tf is None:
+            ctx.ob("C13.R2", inst + ": field declared by template", False, ctx.w(fi, stmt))
+            continue
+        tnode = tf["node"]
+        cname = strip_mod(ap(tnode.func) or "") if isinstance(tnode, ast.Call) else ""
+        aci = repo.resolve_class(cname, repo.module(TMPL))
+        choices = None
+        selector = None
+        if aci is not None and "__init__" in aci.methods:
+            for c in calls(aci.methods["__init__"].node):
+                if isinstance(c.func, ast.Attribute) and c.func.attr == "__init__":
+                    for a in c.args:
+                        if isinstance(a, ast.Dict):
+                            choices = a
+                        if isinstance(a, ast.Lambda) and isinstance(a.body, ast.Attribute):
+                            selector = a.body.attr
+        if choices is None or selector is None:
+            raise AnalysisError(f"C13.R2: template adapter {cname} for {tf['key']} has no analysable choice table")
+        # the fast path must test exactly `<selector value> == <Enum>.<K>`
+        ok_test = isinstance(test, ast.Compare) and len(test.ops) == 1 and isinstance(test.ops[0], ast.Eq)
+        sel_ok = False
+        kname = None
+        if ok_test:
+            lv = interp.env.get(ap(test.left) or "")
+            sel_field = by_key.get(selector)
+            sel_ok = isinstance(lv, Val) and sel_field is not None and lv.toks == sel_field["val"].toks
+            kname = strip_mod(ap(test.comparators[0]) or "")
+        ctx.ob("C13.R2", inst + f": dispatches on the template's selector ({selector}) alone", bool(ok_test and sel_ok),
+               ctx.w(fi, stmt), "template switches on ctx." + selector + " only; an extra/other condition makes the decoders disagree")
+        tchoice = None
+        for k, v in zip(choices.keys, choices.values):
+            if strip_mod(ap(k) or "") == kname:
+                tchoice = v
+        names = set()
+        if tchoice is not None:
+            names = {n.id for n in ast.walk(tchoice) if isinstance(n, ast.Name)} | \
+                    {n.attr for n in ast.walk(tchoice) if isinstance(n, ast.Attribute)}
+        # adapter names applied under this branch must be the ones the template's choice names
+        applied = {a for a in added if a[:1].isupper()}
+        # decode through a class-level adapter instance: names were expanded from its constructor expression
+        ctx.ob("C13.R2", inst + f": applies the template's choice for {kname}", tchoice is not None and bool(applied & names),
+               ctx.w(fi, stmt), f"fast path applies {sorted(applied)[:6]}, template choice is {norm(tchoice) if tchoice is not None else None}")
+    # every non-default template choice is handled by the fast path
+    for tf in tfields:
+        tnode = tf["node"]
+        if isinstance(tnode, ast.Call):
+            aci = repo.resolve_class(strip_mod(ap(tnode.func) or ""), repo.module(TMPL))
+            if aci is not None and any(c.name == "ContextAdapter" for c in repo.mro(aci)) and "__init__" in aci.methods:
+                for c in calls(aci.methods["__init__"].node):
+                    if isinstance(c.func, ast.Attribute) and c.func.attr == "__init__":
+                        for a in c.args:
+                            if isinstance(a, ast.Dict):
+                                for k, v in zip(a.keys, a.values):
+                                    kn = strip_mod(ap(k) or "")
+                                    if kn.endswith("MISSING") or "IdentityAdapter" in src(v):
+                                        continue
+                                    handled = any(isinstance(t, ast.Compare) and strip_mod(ap(t.comparators[0]) or "") == kn
+                                                  for t, _, _, _ in interp.cond_adapters)
+                                    ctx.ob("C13.R2", f"{tf['key']}: template choice {kn} handled by the fast reader",
+                                           handled, where, f"template decodes {tf['key']} through {norm(v)} for {kn}")
+    # the packed rotation adapter shared by both decoders must be a pure projection on encode
+    pq = repo.cls("PackedQuat", SER)
+    enc = pq.methods.get("encode")
+    ctx.require(enc is not None, "se.PackedQuat.encode vanished")
+    arith = [n for n in walk(enc.node) if isinstance(n, (ast.BinOp, ast.AugAssign))] + \
+            [c for c in calls(enc.node) if (ap(c.func) or "").startswith(("math.", "np.", "numpy."))
+             or (ap(c.func) or "") in ("sum", "abs", "round", "pow")]
+    ctx.ob("C13.R2", "PackedQuat.encode is arithmetic-free (drops W, never rescales components)", not arith,
+           ctx.w(enc, arith[0]) if arith else enc.where,
+           "decode rebuilds W from the three wire components; any arithmetic on them in encode changes the re-encoded bytes")
     # endianness
     base = repo.cls("BaseSubfieldSerializer", SER)
     e_node = repo.class_attr(tci, "ENDIANNESS")
